@@ -29,7 +29,7 @@ ASSUMPTIONS = [
     "the result must lie between 'codons fully inside the window' and 'all codons of the CDS'",
 ]
 
-WORLD = {"quick": dict(N=9, k=2, Nw=8, Nc=9), "thorough": dict(N=12, k=3, Nw=9, Nc=10)}
+WORLD = {"quick": dict(N=9, k=2, Nw=8, Nc=9, N3=8), "thorough": dict(N=12, k=3, Nw=9, Nc=10, N3=0)}
 NSH = 64
 GENOMES = {
     "startstop": "ATGTTGACTGATAGGTGCATTAAATGA",
@@ -41,12 +41,14 @@ TABLES = {0: TranslationTable.DEFAULT, 1: TranslationTable.STANDARD, 11: Transla
 
 def world_description(tier):
     w = WORLD[tier]
-    return (f"structure: layouts N={w['N']} k<={w['k']} x strands x all frame vectors; windows: layouts N={w['Nw']} k<=2 x all (a,b) x expand; "
+    return ((f"three-exon structures N={w['N3']} x all 27 frame vectors; " if w["N3"] else "") + f"structure: layouts N={w['N']} k<={w['k']} x strands x all frame vectors; windows: layouts N={w['Nw']} k<=2 x all (a,b) x expand; "
             f"sequence: 3 genomes on layouts N={w['Nc']}; codon table: 64 codons x 3 positions x 2 structures x 3 tables x truncate x strict")
 
 
 def shards(tier, seed):
     out = [{"tier": tier, "part": p, "i": i} for p in ("struct", "window") for i in range(NSH)]
+    if WORLD[tier]["N3"]:
+        out += [{"tier": tier, "part": "struct3", "i": i} for i in range(NSH)]
     out += [{"tier": tier, "part": "frames", "i": i} for i in range(8)]
     out += [{"tier": tier, "part": "codontable", "i": i} for i in range(8)]
     return out
@@ -330,6 +332,19 @@ def run_shard(shard):
                         for g in ("iupac", "lower"):
                             check_struct(res, N, bl, strand, fv, g)
         res.sample({"blocks": [[0, 4], [5, 9]], "strand": "-", "frames": [1, 0], "model_codons": [list(c) for c in model_codons(((0, 4), (5, 9)), "-", (1, 0))]})
+    elif part == "struct3":
+        # three-exon CDS (frameshift at the 3rd exon, 1-2 bp exons) on a smaller chromosome, every frame vector
+        idx = 0
+        N = w["N3"]
+        for bl in worlds.layouts(N, 3, "disjoint"):
+            if len(bl) != 3:
+                continue
+            for strand in "+-":
+                for fv in frame_vectors(3):
+                    idx += 1
+                    if idx % NSH != shard["i"]:
+                        continue
+                    check_struct(res, N, bl, strand, fv, "startstop", seq_checks=True)
     elif part == "window":
         idx = 0
         N = w["Nw"]
